@@ -5,12 +5,17 @@ EXTENDS Interp, Json, TLC
 MCDim == <<2>>
 SX == INSTANCE SequencesExt
 Rng(s) == {s[i] : i \in 1..Len(s)}
+\* malformed expressions: an unknown command with 1, 2 or 3 operands, at the top or below a well-formed parent
+BadTop == {Node(h, as) : h \in UnknownHeads, as \in {<<Leaf("A")>>, <<Leaf("A"), Leaf("B")>>, <<Leaf("A"), Leaf("B"), Leaf("N")>>}}
+BadCases == BadTop \cup {Node("add", <<Leaf("A"), b>>) : b \in BadTop} \cup {Node("expm", <<b>>) : b \in BadTop}
+ASSUME \A b \in BadCases : IsBad(Eval(b))
 ExportAll ==
   LET cs == SX!SetToSeq(Cases)
       ex == [i \in 1..Len(cs) |-> [e |-> cs[i], v |-> Eval(cs[i])]]
   IN  /\ \A r \in Rng(ex) : ~IsBad(r.v)
       /\ JsonSerialize("interp_cases.json",
-             [cases |-> ex, leaves |-> [n \in LeafNames |-> Val(n)], unknown |-> SX!SetToSeq(UnknownHeads)])
+             [cases |-> ex, leaves |-> [n \in LeafNames |-> Val(n)], unknown |-> SX!SetToSeq(UnknownHeads),
+              badcases |-> SX!SetToSeq(BadCases)])
       /\ PrintT(<<"CASES", Len(cs), Cardinality(Depth1), Cardinality(Depth2)>>)
 ASSUME EvaluatorIdentities
 ASSUME ExportAll
